@@ -42,7 +42,7 @@ def _single_cases(draw, tier):
     pdim = len(d["degree"])
     prm = draw(st.lists(gen.params(pdim), min_size=1, max_size=4))
     mode = draw(st.sampled_from(["w", "w", "pw", "pww"]))
-    return {"defn": d, "params": prm, "mode": mode}
+    return {"defn": d, "params": prm, "mode": mode, "option": draw(st.sampled_from([None, None, None, "binsearch", "evaluator2"]))}
 
 
 def check_single(case, ctx):
@@ -60,6 +60,14 @@ def check_single(case, ctx):
             # the caller re-uses (overwrites) the lists it handed to the setters; the shape is still the one that was defined
             build.scribble(handed, knots=bool(d.get("normalize", True)))
             ctx.label("callers-lists-overwritten")
+    if case.get("option") == "binsearch" and d.get("precision") is None:
+        from geomdl import helpers as _h
+        obj = build.make(d, mode=case["mode"], find_span_func=_h.find_span_binsearch)          # documented alternative span search
+        ctx.label("binary-span-search")
+    elif case.get("option") == "evaluator2" and not d["rational"] and d["kind"] in ("curve", "surface"):
+        from geomdl import evaluators as _ev
+        obj.evaluator = _ev.CurveEvaluator2() if d["kind"] == "curve" else _ev.SurfaceEvaluator2()          # documented alternative evaluator
+        ctx.label("alternative-evaluator")
     R = build.exact_from(d, obj)
     allkinds = []
     plist = []
